@@ -165,7 +165,48 @@ def _parse_env(text):
     return view
 
 
+def _trace(spec, what):
+    '''payload-side evidence of when a request really runs: one line per
+    event with the system-wide monotonic clock (O_APPEND: lines are atomic)'''
+    path = spec.get('trace')
+    if not path:
+        return
+    try:
+        fd = os.open(path, os.O_WRONLY | os.O_APPEND | os.O_CREAT, 0o644)
+        os.write(fd, ('%s %s %.6f\n' % (what, spec.get('tag'),
+                                        time.monotonic())).encode())
+        os.close(fd)
+    except OSError:
+        pass
+
+
 def run_payload(spec):
+    _trace(spec, 'start')
+    try:
+        return _run_payload(spec)
+    finally:
+        _trace(spec, 'end')
+
+
+def _run_payload(spec):
+
+    if spec.get('linger') is not None:
+        # a payload which traps SIGTERM, finishes what it is doing (for
+        # `linger` seconds) and only then ends: it is *running* on its cores
+        # until then, whatever the worker believes
+        import signal as _signal
+        flag = {'term': None}
+        def _on_term(signum, frame):
+            if flag['term'] is None:
+                flag['term'] = time.monotonic()
+        _signal.signal(_signal.SIGTERM, _on_term)
+        t0 = time.monotonic()
+        while time.monotonic() - t0 < 600:
+            if flag['term'] is not None and \
+                    time.monotonic() - flag['term'] >= spec['linger']:
+                break
+            time.sleep(0.005)
+        return spec.get('ret')
 
     if spec.get('sleep'):
         time.sleep(spec['sleep'])
@@ -1008,8 +1049,8 @@ def gen_worker_case(rng):
     n       = rng.randint(3, 10)
     reqs    = list()
     classes = ['return', 'print', 'raise', 'exit', 'setenv', 'child',
-               'timeout', 'sleep']
-    weights = [4, 2, 3, 0.7, 1, 2, 1.3, 3]
+               'timeout', 'sleep', 'linger']
+    weights = [4, 2, 3, 0.7, 1, 2, 1.3, 3, 0.8]
     n_tout  = 0
     for i in range(n):
         mode = rng.choice(MODES)
@@ -1018,7 +1059,16 @@ def gen_worker_case(rng):
             cls = 'sleep'
         if mode in SH_MODES and cls == 'setenv':
             cls = 'child'
-        if cls == 'timeout':
+        if cls == 'linger' and (mode not in PY_MODES or n_tout >= 2
+                                or mode not in ('func', 'meth')):
+            cls = 'sleep'
+        if cls == 'linger':
+            # runs into its time limit, traps the SIGTERM and keeps running
+            # on its cores for a moment
+            n_tout += 1
+            spec = {'linger': rng.choice([0.2, 0.35, 0.5]), 'ret': i + 1}
+            tout = rng.choice([0.15, 0.25])
+        elif cls == 'timeout':
             n_tout += 1
             spec = {'sleep': 600}
             tout = rng.choice([0.15, 0.25, 0.4])
@@ -1064,7 +1114,7 @@ def request_task(req):
 
 def expected_outcome(req):
     if req['poison']                      : return 'dispatch-error'
-    if req['cls'] == 'timeout'            : return 'timeout'
+    if req['cls'] in ('timeout', 'linger'): return 'timeout'
     if req['spec'].get('raise')           : return 'raise'
     if req['spec'].get('exit') is not None:
         return 'exit' if req['mode'] in PY_MODES else 'raise'
@@ -1152,6 +1202,29 @@ class WorkerRig(object):
         memzmq.uninstall()
 
 
+STUCK_AFTER_END = 12.0     # seconds (payload's own clock vs. ours, monotonic)
+
+
+def _trace_ends(case):
+    path = None
+    for r in case['requests']:
+        if isinstance(r.get('spec'), dict) and r['spec'].get('trace'):
+            path = r['spec']['trace']
+            break
+    out = dict()
+    if not path:
+        return out
+    try:
+        with open(path) as fin:
+            for line in fin:
+                parts = line.split()
+                if len(parts) == 3 and parts[0] == 'end':
+                    out[parts[1]] = float(parts[2])
+    except OSError:
+        pass
+    return out
+
+
 def run_stream(rig, case, res, watchdog=None):
     '''
     feed the bulks through master.submit_tasks -> worker._request_cb (driver
@@ -1232,6 +1305,22 @@ def run_stream(rig, case, res, watchdog=None):
         if time.time() - t0 > limit:
             status = 'watchdog'
             break
+
+        # payload-side evidence: a request whose payload has *ended* (its own
+        # record) long ago, while its request process still exists and no
+        # result came, is stuck - not slow
+        if alive and time.time() - state.get('trace_read', 0) > 1.0:
+            state['trace_read'] = time.time()
+            ended = _trace_ends(case)
+            now_m = time.monotonic()
+            for u, _p in alive:
+                if u in ended and now_m - ended[u] > STUCK_AFTER_END and \
+                        mon.puts[u] == 0:
+                    state['stuck_uid'] = u
+                    status = 'payload-ended-request-stuck'
+                    break
+            if status:
+                break
         time.sleep(0.003)
 
     if status != 'quiescent':
@@ -1264,6 +1353,16 @@ def judge_worker(rig, case, res, status, part='worker'):
 
     res.see('worker_status', status)
     res.count('live_pairs_checked', mon.pairs)
+
+    if status == 'payload-ended-request-stuck':
+        stuck = [u for u, _ in rig.procs_alive()]
+        return viol('request-stuck-after-payload-ended',
+                    'the payload of %s recorded its own end more than %d s ago, '
+                    'but the request process still exists and no result was '
+                    'reported: its cores/GPUs are never given back (%s)'
+                    % (stuck, STUCK_AFTER_END,
+                       {u: (reqs[u]['mode'], reqs[u]['cls'])
+                        for u in stuck if u in reqs}))
 
     if status == 'watchdog':
         res.inconc('worker stream did not settle within %ds (live processes: '
@@ -1387,15 +1486,69 @@ def judge_worker(rig, case, res, status, part='worker'):
     return True
 
 
+def judge_activity(rig, case, res, trace):
+    '''
+    what the payloads themselves recorded: two requests which were given a
+    common core or GPU must not have been running at the same time - a request
+    runs until its payload has ended, not until the worker says so
+    '''
+    ev = dict()
+    try:
+        with open(trace) as fin:
+            for line in fin:
+                parts = line.split()
+                if len(parts) == 3:
+                    ev.setdefault(parts[1], dict()).setdefault(parts[0],
+                                                               float(parts[2]))
+    except OSError:
+        return True
+    spans = {u: (d['start'], d['end']) for u, d in ev.items()
+             if 'start' in d and 'end' in d}
+    res.count('payload_activity_spans', len(spans))
+    slots = rig.mon.slots
+    uids  = sorted(spans)
+    for i, a in enumerate(uids):
+        for b in uids[i + 1:]:
+            if a not in slots or b not in slots or \
+                    not slots[a] or not slots[b]:
+                continue
+            common_c = set(slots[a][0]['cores']) & set(slots[b][0]['cores'])
+            common_g = set(slots[a][0]['gpus'])  & set(slots[b][0]['gpus'])
+            if not common_c and not common_g:
+                continue
+            res.count('activity_pairs_checked')
+            (a0, a1), (b0, b1) = spans[a], spans[b]
+            overlap = min(a1, b1) - max(a0, b0)
+            if overlap > 0.02:
+                what = 'cores %s' % sorted(common_c) if common_c else \
+                       'gpus %s' % sorted(common_g)
+                res.violation('requests-run-on-same-resource',
+                              '%s and %s were both running for %.2f s on %s '
+                              '(payload-side clocks: %s [%.3f, %.3f], %s '
+                              '[%.3f, %.3f])' % (a, b, overlap, what, a, a0, a1,
+                                                 b, b0, b1),
+                              {'part': 'worker', 'case': case,
+                               'slots': {a: slots[a], b: slots[b]}})
+                return False
+    return True
+
+
 def run_worker_case(case, res, workdir):
 
     wd = os.path.join(workdir, 'wk')
     shutil.rmtree(wd, ignore_errors=True)
     os.makedirs(wd)
     rig = WorkerRig(wd, case['n_cores'], case['n_gpus'], case['seed'], res)
+    trace = os.path.join(wd, 'payload.trace')
+    for r in case['requests']:
+        if isinstance(r.get('spec'), dict):
+            r['spec']['trace'] = trace
+            r['spec']['tag']   = r['uid']
     try:
         status = run_stream(rig, case, res)
         ok     = judge_worker(rig, case, res, status)
+        if ok is not False:
+            ok = judge_activity(rig, case, res, trace) and ok
         return ok, rig.mon.max_live
     finally:
         rig.close()
